@@ -191,7 +191,7 @@ func (m *monitor) judgeShape(e engine, bs []batch, control bool) {
 		rep["error"] = err.Error()
 		r.Eval(e.String()+"|"+bs[0].key(0), true)
 		r.Count("ERROR.compile."+e.name, 1)
-		r.Violation("compile-error/"+bs[0].class(0)+"/"+e.name, "in-domain circuit does not compile: "+firstLine(err), rep)
+		r.Violation("compile-error/"+bs[0].class(0)+"/"+e.String(), "in-domain circuit does not compile: "+firstLine(err), rep)
 		return
 	}
 	if ccs != nil {
@@ -249,7 +249,7 @@ func (m *monitor) judgeShape(e engine, bs []batch, control bool) {
 				rep := b.describe(s)
 				rep["engine"] = e.String()
 				r.Count("ACCEPTED.wrong-digest", 1)
-				r.Violation("wrong-digest-accepted/"+b.class(s)+"/"+e.name, "circuit satisfied although the expected digest differs from the native digest in one bit", rep)
+				r.Violation("wrong-digest-accepted/"+b.class(s)+"/"+e.String(), "circuit satisfied although the expected digest differs from the native digest in one bit", rep)
 			} else {
 				r.Count("control.wrong-digest-rejected."+e.name, 1)
 			}
@@ -271,11 +271,22 @@ func (m *monitor) reportFailure(e engine, b batch, got []*big.Int, err error) {
 		rep["error"] = err.Error()
 	}
 	r.Eval(e.String()+"|"+b.key(0), true)
-	cls := b.class(0) + "/" + e.name
+	cls := b.class(0) + "/" + e.String()
 	switch {
 	case got != nil && !eqVals(got, b.expect(0)):
 		r.Count("MISMATCH."+b.class(0)+"."+e.name, 1)
 		r.Violation("digest-mismatch/"+cls, fmt.Sprintf("in-circuit digest %v differs from native %v (%s)", hexBig(got), hexBig(b.expect(0)), firstLine(err)), rep)
+	case got == nil && err != nil && e.name != "engine" && strings.Contains(err.Error(), "is not satisfied"):
+		// the solver stopped at a violated constraint before it executed the tap;
+		// for the report, ask the test engine what the gadget computes
+		te := engine{"engine", e.curve}
+		if trun, _, perr := te.prepare(b.shape()); perr == nil {
+			ttag := nextTag()
+			_ = trun(b.assign(ttag, -1))
+			rep["circuit_digest_in_test_engine"] = hexBig(takeTap(ttag, 0))
+		}
+		r.Count("REJECTED-native-digest."+b.class(0)+"."+e.name, 1)
+		r.Violation("native-digest-rejected/"+cls, "the compiled circuit cannot be solved with the native digest as expected value: "+firstLine(err), rep)
 	case got == nil && err != nil:
 		r.Count("ERROR."+b.class(0)+"."+e.name, 1)
 		r.Violation("gadget-error/"+cls, "circuit failed before producing a digest on an in-domain input: "+firstLine(err), rep)
@@ -305,9 +316,9 @@ func (m *monitor) judgeSat(e engine, run runFn, assign frontend.Circuit, wantSat
 	case wantSat:
 		rep["error"] = err.Error()
 		r.Count("REJECTED-valid."+class+"."+e.name, 1)
-		r.Violation("valid-rejected/"+class+"/"+e.name, "native verifier accepts, circuit is unsatisfied: "+firstLine(err), rep)
+		r.Violation("valid-rejected/"+class+"/"+e.String(), "native verifier accepts, circuit is unsatisfied: "+firstLine(err), rep)
 	default:
 		r.Count("ACCEPTED-invalid."+class+"."+e.name, 1)
-		r.Violation("invalid-accepted/"+class+"/"+e.name, "native verifier rejects, circuit is satisfied", rep)
+		r.Violation("invalid-accepted/"+class+"/"+e.String(), "native verifier rejects, circuit is satisfied", rep)
 	}
 }
